@@ -267,6 +267,30 @@ func installExternals(ex *Exec) {
 	}
 	E["bytes.Compare"] = E["internal/bytealg.Compare"]
 	E["strings.Compare"] = E["internal/bytealg.Compare"]
+	// sort.Slice / SliceStable (reflection based swapper in the real code):
+	// insertion sort with the caller's less function; any order consistent
+	// with less is a legal outcome of sort.Slice
+	E["sort.Slice"] = func(ex *Exec, fr *frame, a []Value) Value {
+		iv, _ := a[0].(Iface)
+		sl, ok := iv.V.(Slice)
+		if !ok {
+			unsupported("sort.Slice of a non-slice")
+		}
+		c := ex.c
+		for i := 1; i < len(sl.A); i++ {
+			for j := i; j > 0; j-- {
+				r := ex.call(fr, a[1], []Value{c.Const(sym.BV(64), uint64(j)), c.Const(sym.BV(64), uint64(j-1))}, token.NoPos)
+				if !ex.decide(r.(*sym.Term)) {
+					break
+				}
+				tmp := sl.A[j]
+				ex.store(&sl.A[j], sl.A[j-1])
+				ex.store(&sl.A[j-1], tmp)
+			}
+		}
+		return nil
+	}
+	E["sort.SliceStable"] = E["sort.Slice"]
 	// regular expressions are not executed (outside every claim)
 	E["regexp.Compile"] = func(ex *Exec, fr *frame, a []Value) Value {
 		unsupported("regexp.Compile (regular expressions are not encoded)")
